@@ -23,7 +23,8 @@ class Target:
     def __init__(self, name, fqn=None, mod=None, qual=None, kind="function", self_cls=None, params=None,
                  requires=(), ensures=(), raises=None, raises_default=None, no_raise=None, loops=None,
                  local_types=None, setup=None, allow_exc=None, assert_mode=None, modifies=None, node=None,
-                 unchecked_exc=(), reveal=(), ghost=(), ghost_init=None, dead=(), yield_spec=None):
+                 unchecked_exc=(), reveal=(), ghost=(), ghost_init=None, dead=(), yield_spec=None, ret=None):
+        self.ret = ret                        # declared result type: an unmodelled (opaque) result becomes an ARBITRARY value of it
         self.yield_spec = yield_spec          # iterator contract for generator functions
         self.name, self.mod, self.qual, self.kind, self.self_cls = name, mod, qual, kind, self_cls
         self.params = dict(params or {})      # name -> Ty (parameters not listed take their default value)
@@ -499,6 +500,11 @@ class Engine(ExprMixin, StmtMixin, CallMixin, BuiltinMixin, EngineBase):
                 nret += 1
                 env2 = dict(env)
                 env2.update(q.ghost.get("$exit_ghost", {}))
+                if getattr(t, "ret", None) is not None and isinstance(r, VOpaque):
+                    # the function returned something the model does not follow (e.g. taken from an unmodelled container):
+                    # an arbitrary value of the declared type - about which the postconditions must still hold
+                    r = t.ret.fresh("opaque_result")
+                    self.assume_typed(q, r)
                 env2["result"] = r
                 for i, s in enumerate(t.ensures):
                     goal = self.spec_bool(s, q, env2)
